@@ -26,7 +26,7 @@ import struct
 import time
 
 import vlib
-from vlib import cbool, clist, cz
+from vlib import cbool, cz
 
 decimal.getcontext().prec = 80
 
@@ -35,8 +35,9 @@ THEOREMS = [("Arc.Codec.Props", n) for n in (
     "C19_json_string_roundtrip", "C19_json_string_utf8_guarded", "C19_json_string_utf8_exact",
     "C19_json_binary_utf8_refuted", "C19_json_column_names", "C19_json_int_roundtrip",
     "C19_json_float_null_rule", "C19_nonfinite_is_ieee", "C19_msgpack_int_roundtrip", "C19_ts_units",
-    "C19_date32", "C19_msgpack_str_bin_roundtrip", "C19_limit_prefix", "C19_type_name_determines_wire")]
-MODULES = ["Arc.Codec.Props"]
+    "C19_date32", "C19_msgpack_str_bin_roundtrip", "C19_limit_prefix", "C19_type_name_determines_wire",
+    "C19_type_name_decodes", "C19_json_blob_text_form")] + [("Arc.Codec.Obligations", "C19_deployed_blob_json")]
+MODULES = ["Arc.Codec.Props", "Arc.Codec.Obligations"]
 TIE_NAME = ("C19 correspondence (api.writeJSONString/writeArrowValue/streamArrowJSON/encodeColumn/"
             "drainArrowBatches/streamMsgPackFromBatches/arrowTypeName vs Arc.Codec.Model)")
 HARNESS = {"internal/api/zz_codec_verif_test.go": "harness/codec/codec_verif_test.go"}
@@ -75,6 +76,43 @@ OTHER = {  # harness type -> (okind term, [Arrow-JSON batches])
     "map_utf8_int32": ("OMap", ['[[{"key":"k","value":1}], null]']),
     "dictionary_int32_utf8": (None, ['["a","b","a", null]']),
 }
+
+
+BLOB_MODE = {"duck": False}      # set by translate_params() from the current source
+
+
+def translate_params():
+    """Which encoder does writeArrowValue use for *array.Binary in the CURRENT source?
+    -> coq/gen/Params_Codec.v (json_blob_duck_text), re-checked by Obligations.v."""
+    src = open(os.path.join(vlib.REPO, "internal/api/query_arrow_json.go")).read()
+    m = re.search(r"case \*array\.Binary:\n\s*(\w+)\(([^\n]*)\)\n", src)
+    if not m:
+        raise vlib.TieBroken("writeArrowValue: `case *array.Binary:` with a single writer call not found")
+    if m.group(1) == "writeJSONString" and "string(c.Value(row))" in m.group(2):
+        duck = False
+    elif m.group(1) == "writeJSONBlob" and "c.Value(row)" in m.group(2):
+        duck = True
+    else:
+        raise vlib.TieBroken("writeArrowValue: unknown BLOB writer %s(%s)" % (m.group(1), m.group(2)))
+    BLOB_MODE["duck"] = duck
+    vlib.write_params("Params_Codec", "(* GENERATED by tools/props/C19.py from the current /repo sources - do not edit *)\n"
+                      "Definition json_blob_duck_text : bool := %s.\n" % ("true" if duck else "false"))
+    return duck
+
+
+def coq_mode():
+    return "BlobDuckText" if BLOB_MODE["duck"] else "BlobRaw"
+
+
+def duck_blob_text(b):
+    return "".join(chr(c) if (32 <= c <= 126 and c not in (92, 39, 34)) else "\\x%02X" % c for c in b)
+
+
+def json_blob_expect(b):
+    """the decoded JSON string a BLOB cell must give under the deployed mode (None = cannot be valid JSON)"""
+    if BLOB_MODE["duck"]:
+        return duck_blob_text(b)
+    return b.decode("utf-8") if utf8_ok(b) else None
 
 
 # --------------------------------------------------------------------------------------
@@ -277,13 +315,23 @@ def cell_harness(typ, c):
     return str(c)
 
 
+def clist(items):
+    """prefix cons/nil form: coqc elaborates the [a; b; c] notation ~20x slower"""
+    items = list(items)
+    if not items:
+        return "nil"
+    return "(" + "".join("cons %s (" % x for x in items) + "nil" + ")" * len(items) + ")"
+
+
 def cb(b):
     """bytes -> Coq `list N` term; long runs of one byte become `repeat x n` (coqc's parser
     overflows its stack on list literals with tens of thousands of elements)."""
     if not b:
-        return "[]"
+        return "nil"
+    if len(b) < 4:
+        return clist(str(x) for x in b)
     if len(b) < 2000:
-        return "[" + ";".join(str(x) for x in b) + "]"
+        return "(pk 0x%x)" % (int.from_bytes(b, "little") | (1 << (8 * len(b))))
     parts, i = [], 0
     while i < len(b):
         j = i
@@ -296,7 +344,7 @@ def cb(b):
             k = i
             while k < len(b) and not (k + 64 <= len(b) and len(set(b[k:k + 64])) == 1) and k - i < 1500:
                 k += 1
-            parts.append("[" + ";".join(str(x) for x in b[i:k]) + "]")
+            parts.append("(pk 0x%x)" % (int.from_bytes(b[i:k], "little") | (1 << (8 * (k - i)))))
             i = k
     return "(" + " ++ ".join(parts) + ")"
 
@@ -574,7 +622,7 @@ def to_coq(c, o):
                         c["_txt_from_impl"] += 1
                     row.append(cell_coq(typ, v, txt))
                 cells.append(row)
-        return "CCol %s %s %s %s %s" % (ct, cb(o.get("typename", "").encode()), clist([clist(b) for b in cells]),
+        return "CCol %s %s %s %s %s %s" % (coq_mode(), ct, cb(o.get("typename", "").encode()), clist([clist(b) for b in cells]),
                                         clist([clist([cb(hx(x)) for x in b]) for b in jc]), cb(hx(o.get("msgpack"))))
     if k == "result":
         jb, jok = split_json_body(hx(o.get("jsonbody")))
@@ -593,13 +641,15 @@ def to_coq(c, o):
                     cells.append(cell_coq(t, v, txt))
                 rb.append(clist(cells))
             rows.append(clist(rb))
-        return "CResult %s %s %d %s %s %d %s %d %s" % (
-            clist([cb(n) for n in c["names"]]), clist([CT[t] for t in types]), c["limit"], clist(rows),
+        return "CResult %s %s %s %d %s %s %d %s %d %s" % (
+            coq_mode(), clist([cb(n) for n in c["names"]]), clist([CT[t] for t in types]), c["limit"], clist(rows),
             cb(jb), o.get("jsonrc", 0), cb(mb), o.get("mprc", 0), clist([str(x) for x in (o.get("drained") or [])]))
     raise ValueError(k)
 
 
 def has_bad_blob(c):
+    if BLOB_MODE["duck"]:
+        return False
     if c["kind"] == "col" and c["type"] == "binary" and "batches" in c:
         return any(v is not None and not utf8_ok(v) for b in c["batches"] for v in b)
     if c["kind"] == "result":
@@ -674,7 +724,7 @@ def json_cell_problem(t, v, g):
     if t in PER_SEC or t == "date32":
         s, n = ts_split(t, v) if t in PER_SEC else (v * 86400, 0)
         return None if g == rfc3339nano(s, n) else "%s %d decoded as %r" % (t, v, g)
-    want = v.decode("utf-8", "replace")
+    want = json_blob_expect(v) if t == "binary" else v.decode("utf-8", "replace")
     return None if g == want else "%s %r decoded as %r" % (t, v, g)
 
 
@@ -761,7 +811,7 @@ def evaluate(cases, outs, name):
         terms.append(t)
         idx.append(i)
     preds = {"agree": "case_agrees", "oracle": "case_oracle"}
-    step = 120
+    step = 70
     offs = list(range(0, len(terms), step))
 
     def one(off):
@@ -770,7 +820,7 @@ def evaluate(cases, outs, name):
     r = {"agree": [], "oracle": []}
     if offs:
         from concurrent.futures import ThreadPoolExecutor
-        with ThreadPoolExecutor(max_workers=min(6, len(offs))) as ex:
+        with ThreadPoolExecutor(max_workers=min(8, len(offs))) as ex:
             for off, part in ex.map(one, offs):
                 for k in r:
                     r[k] += [off + x for x in part[k]]
@@ -988,7 +1038,7 @@ def e2e_class(t, v):
     """known / documented deviation classes of a (type, value)"""
     if v is None:
         return None
-    if t == "BLOB" and not utf8_ok(v):
+    if t == "BLOB" and not utf8_ok(v) and not BLOB_MODE["duck"]:
         return SIG_BLOB
     if t == "UHUGEINT" and v >= 2 ** 127:
         return SIG_UHUGE
@@ -1057,7 +1107,7 @@ def e2e_json_problem(t, v, g):
     if t == "VARCHAR":
         return None if g == v.decode() else "decoded as %r" % (g,)
     if t == "BLOB":
-        return None if g == v.decode("utf-8", "replace") and utf8_ok(v) else "decoded as %r" % (g,)
+        return None if g == json_blob_expect(v) else "decoded as %r" % (g,)
     if t == "DATE":
         return None if g == rfc3339nano(v * 86400, 0) else "decoded as %r" % (g,)
     if t in ("TIMESTAMP", "TIMESTAMPTZ", "TIMESTAMP_S", "TIMESTAMP_MS", "TIMESTAMP_NS"):
@@ -1212,7 +1262,7 @@ def check_e2e(c, o):
 # --------------------------------------------------------------------------------------
 
 def setup():
-    pass
+    translate_params()
 
 
 def warm():
@@ -1233,7 +1283,13 @@ def load_corpus():
 
 def run(res, tier, seed):
     rng = random.Random(seed * 1000003 + 19)
-    failed = vlib.std_proof_stage(res, "C19", AREA, MODULES, THEOREMS)
+    t0 = time.time()
+    try:
+        duck = translate_params()
+    finally:
+        res.stage("translate_params", t0)
+    res.cov["params"] = {"json_blob_duck_text": duck}
+    failed = vlib.std_proof_stage(res, "C19", AREA, MODULES, THEOREMS, extra_targets=["theories/Codec/Obligations.vo"])
     res.cov["trusted_base"] += [
         "ORACLES (inputs of the model): strconv.AppendFloat text of finite floats and time.AppendFormat RFC3339Nano text (both re-derived "
         "independently in tools/props/C19.py and compared on every case), Arrow ValueStr text of types without a native encoder, "
@@ -1377,6 +1433,7 @@ def run(res, tier, seed):
 
 
 def replay(res, path):
+    translate_params()
     obj = json.load(open(path))
     if obj.get("sql"):
         c = {"kind": "e2e", "sql": obj["sql"], "limit": 0, "http": True}
